@@ -41,7 +41,8 @@ Theorem illegal_padding_rejected : forall (m : pmode) (c : R) (cast : bool) (x y
   (length x < length y)%nat ->
   offset_ok (length x) (length y) off = true ->
   pad_legal m (length x) (length y) off = false ->
-  resize1 m Forward c cast x (length y) off = ValueErr /  resize1 m Adjoint c cast y (length x) off = ValueErr.
+  resize1 m Forward c cast x (length y) off = ValueErr /\
+  resize1 m Adjoint c cast y (length x) off = ValueErr.
 Proof. exact illegal_rejected. Qed.
 Print Assumptions illegal_padding_rejected.
 
